@@ -38,6 +38,8 @@ impl Property for C01 {
     }
     fn run(&self, s: &Streams) -> CaseOut {
         let mut out = CaseOut::new();
+        // the reference run shows that the program terminates: a run-away next() is a violation
+        out.fuel_is_violation = true;
         let mut cfg = flow_cfg();
         // one case in twelve has a wide bus so that bits(k,e) with k up to 64 occurs
         cfg.bus = Ch::new(&s[1]).chance(1, 12);
@@ -82,7 +84,7 @@ impl Property for C01 {
         let Some(tc) = load_wellformed(&mut out, "c01", &text, &built.sigs) else {
             return out;
         };
-        let real = run_real(&tc, &built.sigs, &spec, &RunOpts { max_next: next_budget(&t), ..Default::default() });
+        let real = run_real(&tc, &built.sigs, &spec, &RunOpts { max_next: next_budget(&t), fuel: fuel_for(t.facts.steps), ..Default::default() });
         if let Some((k, m)) = trace_diff(&t, &real, Projection::INPUTS_EXPECTED) {
             let key = if k.starts_with("panic:") { k } else { format!("c01:{k}") };
             out.fail(key, m);
